@@ -22,7 +22,7 @@ From Galene Require Import Model.Subscribe.
 From Galene Require Import Proofs.SubscribeSelect Proofs.SubscribeFrame Proofs.SubscribeInv
   Proofs.SubscribeStep Proofs.SubscribeHeap Proofs.SubscribeOwn Proofs.SubscribeOut
   Proofs.SubscribeProps Proofs.SubscribeTeardown Proofs.SubscribeExact Proofs.SubscribeFresh
-  Proofs.SubscribeSync Proofs.SubscribeWitness.
+  Proofs.SubscribeSync Proofs.SubscribeWitness Proofs.SubscribePinned Proofs.SubscribeNeg.
 Import ListNotations.
 
 (* ------------------------------------------------------------------ *)
@@ -248,6 +248,28 @@ Theorem C07_offered_iff_requested : forall n ops m u,
   end.
 Proof. exact offered_iff_requested. Qed.
 Print Assumptions C07_offered_iff_requested.
+
+(* what a subscriber was last offered is what its down connection holds, or an
+   offer is outstanding whose answer triggers the next one: negotiate defers a
+   renegotiation (d_neg) only while the previous offer is unanswered
+   (d_havelocal), for every client along every history; the `answer` handler
+   sends the deferred offer (Model handle_msg MAnswer; driver stream
+   corpus-change-while-offer-outstanding, monitor C07.offer_carries_selection
+   compares the contents of the last offer with the down connection) *)
+Theorem C07_deferred_only_while_outstanding : forall n ops m d,
+  ok_run (init n) ops ->
+  In d (c_down (w_cl (run (init n) ops) m)) -> d_neg d = true -> d_havelocal d = true.
+Proof. exact deferred_only_while_outstanding. Qed.
+Print Assumptions C07_deferred_only_while_outstanding.
+
+(* The delayed push: the driver fires it through a hook that re-states the body
+   of the goroutine of rtpconn.pushConn, and the model transcribes it.  The text
+   of pushConn, re-read from /repo on every run, is the text both were written
+   against (any edit of pushConn fails here until hook and model follow). *)
+Theorem C07_pushConn_source_pinned :
+  Generated.PushConn.pushConn_text = pushConn_text_expected.
+Proof. exact pushConn_text_pinned. Qed.
+Print Assumptions C07_pushConn_source_pinned.
 
 (* ------------------------------------------------------------------ *)
 (* Non-vacuity: a history that satisfies the hypothesis, reaches quiescence,
